@@ -42,8 +42,8 @@ for (l, tier) in ((7, 'quick'), (100, 'quick'), (600, 'deep')):
         for regime in ('short', 'long'):
             if regime == 'long' and l != 7:
                 continue
-            inst(['C19', 'C06'], 'c19_uniform_l%d_%s%s' % (l, 'ones' if value else 'zeros', '_long' if regime == 'long' else ''), 'c19::uniform(%d, %s)' % (l, 'true' if value else 'false'), tier=tier, unwind=max(l, 64) + 4,
-                 unwindset={r'memcmp': 600}, stubs=['force_long'] if regime == 'long' else [], cap=900, mem=10,
+            inst(['C19', 'C06'], 'c19_uniform_l%d_%s%s' % (l, 'ones' if value else 'zeros', '_long' if regime == 'long' else ''), 'c19::uniform(%d, %s, %s)' % (l, 'true' if value else 'false', 'true' if regime == 'long' else 'false'), tier=tier, unwind=max(l, 64) + 4,
+                 unwindset={r'memcmp': 600}, cap=900, mem=10,
                  desc='uniform BitVector (%d bits, all %d, %s-superblock regime): every support built, written, loaded; == and rank/select/select_zero for a symbolic argument (the only shape where loaded select supports have concrete sizes)' % (l, 1 if value else 0, regime),
                  shape={'len': l, 'bits': 'all ones' if value else 'all zeros', 'regime': regime})
 
